@@ -130,6 +130,12 @@ func etcdConditionalWrites(m *Module, r *Report, rule string, fn *ssa.Function, 
 							if tgt != nil {
 								tn = calleeName(&tgt.Call)
 							}
+							// only an equality can pin the key to the state that was read / expected:
+							// "exists" (> 0), "changed" (!=) or range comparisons let another owner's value through
+							if op, okop := constString(cmp.Call.Args[1]); !okop || op != "=" {
+								weak = "If compares with operator " + describe(cmp.Call.Args[1]) + " at " + m.Pos(cmp.Pos()) + ": only \"=\" pins the key to an expected value; an inequality (e.g. CreateRevision > 0, 'the key exists') accepts a key that another owner has written"
+								return
+							}
 							switch {
 							case strings.HasSuffix(tn, "client/v3.ModRevision"), strings.HasSuffix(tn, "client/v3.Version"), strings.HasSuffix(tn, "client/v3.Value"):
 							case strings.HasSuffix(tn, "client/v3.CreateRevision"):
